@@ -72,6 +72,8 @@ def check_linearity(case, r: R):
         r.cls('linear-source')
     if a[1] != 0:
         r.cls('complex-factor')
+    if abs(complex(*a)) < 1e-8:
+        r.cls('tiny-factor')
     r.cls(f'parts={min(len(groups), 4)}', 'current-sources-zeroed-first' if case.get('order') else 'voltage-sources-zeroed-first')
     N = full = None
     with r.lib('solve'):
@@ -190,7 +192,8 @@ def check_linearity(case, r: R):
 def linearity_case(draw):
     net = draw(gen.network(nmin=2, nmax=6, max_branches=10, min_sources=draw(st.sampled_from([1, 2, 2, 3]))))
     a = draw(st.one_of(gen.complex_val(-2, 2), st.tuples(gen.signed_real(-2, 2), st.just(0.0)).map(list),
-                       st.sampled_from([[-1.0, 0.0], [0.0, 1.0], [2.0, 0.0], [0.5, -0.5]])))
+                       st.sampled_from([[-1.0, 0.0], [0.0, 1.0], [2.0, 0.0], [0.5, -0.5]]),
+                       st.sampled_from([[1e-9, 0.0], [0.0, -3e-12], [2e-15, 1e-15], [-4e-10, 0.0], [1e7, 0.0]])))
     parts = draw(st.lists(st.sampled_from([0, 1, 2, 3, 1, 0]), min_size=6, max_size=6))
     return {'net': net, 'a': a, 'parts': parts, 'order': draw(st.booleans())}
 
